@@ -151,12 +151,14 @@ func features(ser string) sqlgen.Features {
 	f.DDLExtras = hx.Allowed("c06.ddl_extras")
 	f.Alter = hx.Allowed("c06.alter_table")
 	f.AlterQualified = hx.Allowed("c06.alter_qualified_table")
+	f.MySQL = hx.Allowed("c06.mysql_forms")
+	f.Partitions = hx.Allowed("c06.partitions")
 	if ser == "cli" && !hx.Allowed("c06.cli.unimplemented_clauses") {
 		// listed finding: the CLI formatter's own statement printers drop clauses
 		// they do not implement; steer the cli serialiser around exactly those
 		f.NoDistinctOn, f.NoFetch, f.NoForClause, f.NoReturning, f.NoOnConflict, f.NoDMLWith, f.NoMaterialized = true, true, true, true, true, true, true
 		// ... nor table constraints, index methods and predicates, TRUNCATE/REFRESH, or quoting in DDL and MERGE
-		f.DDL, f.Merge = false, false
+		f.DDL, f.Merge, f.MySQL, f.Partitions = false, false, false, false
 	}
 	return f
 }
